@@ -16,6 +16,8 @@ import shutil
 import subprocess
 import tempfile
 
+from simkit.core import guard_path
+
 
 class SimKill(BaseException):
     """The simulated process dies here (SIGKILL): nothing it does afterwards reaches the disk."""
@@ -400,6 +402,8 @@ class SimFS:
     def _rename(self, real, src, dst, *a, **kw):
         pclass = self._class_of(dst)
         if pclass is None:
+            guard_path(src)
+            guard_path(dst)
             return real(src, dst, *a, **kw)
         self.event("rename", pclass)
         if self.dead:
@@ -415,6 +419,8 @@ class SimFS:
     def remove(self, path, *a, **kw):
         pclass = self._class_of(path)
         if pclass is None:
+            if kw.get("dir_fd") is None:
+                guard_path(path)
             return _real_remove(path, *a, **kw)
         self.event("remove", pclass)
         if self.dead:
@@ -427,6 +433,8 @@ class SimFS:
 
     def rmtree(self, path, *a, **kw):
         pclass = self._class_of(path)
+        if pclass is None:
+            guard_path(path)
         if pclass is not None:
             self.event("rmtree", "tmp")
             if self.dead:
